@@ -17,7 +17,7 @@ git -C "$d" apply "$src/patch.diff"
 echo "== build with patch"; (cd "$d" && go build "./$pkg/..." ) || { echo "INTAKE-FAIL: does not build"; exit 1; }
 echo "== demo with patch (must fail)"; if (cd "$d" && go test -count=1 -run 'Mut|Demo|ZZ' "./$pkg/" >"$log" 2>&1); then echo "INTAKE-FAIL: demo passes with patch"; exit 1; fi
 rm "$d/$pkg/zz_mut_demo_test.go"
-echo "== existing tests with patch (must pass)"; ok=0; for try in 1 2 3 4; do if (cd "$d" && go test -count=1 "./$pkg/..." $@ >"$log" 2>&1); then ok=1; break; fi; echo "   (attempt $try failed: $(grep -E '^--- FAIL' "$log" | head -3 | tr '\n' ' '))"; done; [ $ok = 1 ] || { grep -E "^(---|FAIL)" "$log" | head; echo "INTAKE-FAIL: existing tests fail with patch"; exit 1; }
+echo "== existing tests with patch (must pass)"; ok=0; for try in 1 2 3 4; do if (cd "$d" && go test -count=1 "./$pkg/..." "$@" >"$log" 2>&1); then ok=1; break; fi; echo "   (attempt $try failed: $(grep -E '^--- FAIL' "$log" | head -3 | tr '\n' ' '))"; done; [ $ok = 1 ] || { grep -E "^(---|FAIL)" "$log" | head; echo "INTAKE-FAIL: existing tests fail with patch"; exit 1; }
 mkdir -p "seeded/$name"
 cp "$src/patch.diff" "$src/zz_mut_demo_test.go" "seeded/$name/"
 python3 - "$src/meta.json" "seeded/$name/meta.json" "$pid" "$pkg" <<'PY'
